@@ -35,8 +35,12 @@ class Cls:
     def _set(self, v):
         pass
 
+    def _del(self):
+        pass
+
     settable = property(_get, _set)
     nogetter = property(None, _set)
+    deletable = property(_get, None, _del)
 
 
 now_int = 3
